@@ -150,7 +150,7 @@ def box_variants(f, sym):
             continue
         for j, st in enumerate(blk["s"]):
             if not (st[0] == "a" and st[2][0] == "agg" and st[2][1] == "adt" and
-                    str(st[2][2]).endswith("crop_box::CropBox")):
+                    str(st[2][2]).rsplit("::", 1)[-1] == "CropBox"):
                 continue
             ops = st[2][4]
             names = ["left", "top", "width", "height"]
